@@ -32,10 +32,24 @@ import (
 	"verif/tools/instr"
 )
 
-const (
-	repoDir  = "/repo"
-	verifDir = "/verif"
-)
+const repoDir = "/repo"
+
+// verifDir is where evidence/, replays/, sim/ and known_findings.json live: the
+// parent of the directory holding this executable (so that a snapshot of /verif
+// run elsewhere keeps its outputs to itself), or $VERIF_DIR.
+var verifDir = func() string {
+	if d := os.Getenv("VERIF_DIR"); d != "" {
+		return d
+	}
+	if exe, err := os.Executable(); err == nil {
+		if d := filepath.Dir(filepath.Dir(exe)); d != "" {
+			if _, err := os.Stat(filepath.Join(d, "sim", "zsim")); err == nil {
+				return d
+			}
+		}
+	}
+	return "/verif"
+}()
 
 type propCfg struct {
 	World       string
